@@ -141,20 +141,21 @@ Definition finish (k : ckind) (acc : list val) : option val :=
 (* ------------------------------------------------------------------------------------------- *)
 (* Evaluation of expressions.  None = an exception is raised. *)
 
-Definition res := option (list val * trace).
+(* what a comprehension threads through its clauses: the environment of its scope, the items collected so far
+   and the trace *)
+Definition res := option (env * list val * trace).
 
 Section Iter.
   Variable body : env -> trace -> list val -> res.
-  (* every item is bound on top of the same environment: a clause does not see what a deeper clause
-     bound during the previous item (reading it would have raised at the first item) *)
-  Fixpoint iter_items (t : tgt) (en : env) (xs : list val) (tr : trace) (acc : list val) : res :=
+  (* one scope for the whole comprehension: what a clause binds stays bound (like in a for statement) *)
+  Fixpoint iter_items (t : tgt) (xs : list val) (en : env) (tr : trace) (acc : list val) : res :=
     match xs with
-    | [] => Some (acc, tr)
+    | [] => Some (en, acc, tr)
     | x :: xs' =>
         match bind t x en with
         | Some en' =>
             match body en' tr acc with
-            | Some (acc', tr') => iter_items t en xs' tr' acc'
+            | Some (en'', acc', tr') => iter_items t xs' en'' tr' acc'
             | None => None
             end
         | None => None
@@ -234,7 +235,7 @@ Section Walkers.
     fun en tr acc =>
       match ev_conds en ifs tr with
       | Some (true, tr1) => k en tr1 acc
-      | Some (false, tr1) => Some (acc, tr1)
+      | Some (false, tr1) => Some (en, acc, tr1)
       | None => None
       end.
 
@@ -249,7 +250,7 @@ Section Walkers.
               match ev it en tr with
               | Some (v, tr1) =>
                   match items_of v with
-                  | Some xs => iter_items (clause_body ifs (run_gens rest)) t en xs tr1 acc
+                  | Some xs => iter_items (clause_body ifs (run_gens rest)) t xs en tr1 acc
                   | None => None
                   end
               | None => None
@@ -265,13 +266,26 @@ Section Walkers.
       | Some (v, tr1) =>
           match k with
           | CDict => match ev dval en tr1 with
-                     | Some (dv, tr2) => Some (acc ++ [VTuple [v; dv]], tr2)
+                     | Some (dv, tr2) => Some (en, acc ++ [VTuple [v; dv]], tr2)
                      | None => None
                      end
-          | _ => Some (acc ++ [v], tr1)
+          | _ => Some (en, acc ++ [v], tr1)
           end
       | None => None
       end.
+
+  (* map / filter call a function per item: nothing but the parameter is bound, and only for the call *)
+  Section Lam.
+    Variable f : val -> trace -> option (list val * trace).      (* the items that one call contributes *)
+    Fixpoint lam_items (xs : list val) (tr : trace) (acc : list val) : option (list val * trace) :=
+      match xs with
+      | [] => Some (acc, tr)
+      | x :: xs' => match f x tr with
+                    | Some (ys, tr') => lam_items xs' tr' (acc ++ ys)
+                    | None => None
+                    end
+      end.
+  End Lam.
 End Walkers.
 
 Fixpoint gens_targets (gens : list cx) : list nat :=
@@ -345,8 +359,8 @@ Fixpoint eval (w : world) (e : cx) (en : env) (tr : trace) {struct e} : option (
               | Some xs =>
                   match iter_items
                           (clause_body (eval w) ifs (run_gens (eval w) (leaf_of (eval w) k elt dval) rest))
-                          t (mask (gens_targets gens) en) xs tr1 [] with
-                  | Some (acc, tr2) => match finish k acc with Some r => Some (r, tr2) | None => None end
+                          t xs (mask (gens_targets gens) en) tr1 [] with
+                  | Some (_, acc, tr2) => match finish k acc with Some r => Some (r, tr2) | None => None end
                   | None => None
                   end
               | None => None
@@ -360,11 +374,10 @@ Fixpoint eval (w : world) (e : cx) (en : env) (tr : trace) {struct e} : option (
       | Some (v, tr1) =>
           match items_of v with
           | Some xs =>
-              match iter_items (fun en' tr' acc =>
-                                  match eval w body en' tr' with
-                                  | Some (r, tr2) => Some (acc ++ [r], tr2)
-                                  | None => None
-                                  end) (TName a) en xs tr1 [] with
+              match lam_items (fun x tr' => match eval w body (upd en a x) tr' with
+                                            | Some (r, tr2) => Some ([r], tr2)
+                                            | None => None
+                                            end) xs tr1 [] with
               | Some (acc, tr2) => Some (VIter acc, tr2)
               | None => None
               end
@@ -377,13 +390,11 @@ Fixpoint eval (w : world) (e : cx) (en : env) (tr : trace) {struct e} : option (
       | Some (v, tr1) =>
           match items_of v with
           | Some xs =>
-              match iter_items (fun en' tr' acc =>
-                                  match eval w body en' tr' with
-                                  | Some (r, tr2) =>
-                                      Some (if Bool.eqb (truthy r) (negb neg)
-                                            then acc ++ opt_list (en' a) else acc, tr2)
-                                  | None => None
-                                  end) (TName a) en xs tr1 [] with
+              match lam_items (fun x tr' => match eval w body (upd en a x) tr' with
+                                            | Some (r, tr2) =>
+                                                Some (if Bool.eqb (truthy r) (negb neg) then [x] else [], tr2)
+                                            | None => None
+                                            end) xs tr1 [] with
               | Some (acc, tr2) => Some (VIter acc, tr2)
               | None => None
               end
@@ -821,7 +832,9 @@ Definition site_nested (fresh : nat) (after : nat -> bool) (s : st) : option st 
       match leaf with
       | [SMeth r MExtend e] => go (clause_targets cl) r e
       | [SAssign c e; SMeth r MExtend (XName c')] =>
-          if Nat.eqb c c' then go (clause_targets cl ++ [c]) r e else None
+          (* the temporary is gone afterwards: the loop may not read what it was in the iteration before *)
+          if Nat.eqb c c' && negb (mentions c e) && negb (existsb (mentions c) gens)
+          then go (clause_targets cl ++ [c]) r e else None
       | _ => None
       end
   | _ => None
